@@ -2,9 +2,10 @@
 alignment  (fault_enumeration).
 
 For each generated file (writer- or foreign-produced, incl. long headers and
-long content lines): pad the first header with an unknown option of length
-0..2B (C12 guarantees this changes nothing else; it shifts every later header
-through every alignment), read under block sizes 1..2B and "larger than the
+long content lines): pad one header (any section, drawn) with an unknown option of length
+0..2B (C12 guarantees this changes nothing else; every read-ahead starts at
+the current stream position, so a header's alignment is its own length modulo
+the block size), read under block sizes 1..2B and "larger than the
 file" (B = 96, the library's read-ahead block), over three stream kinds
 (sim handle, io.BytesIO, io.BufferedReader over a raw sim stream with a drawn
 buffer size).  Metamorphic oracle: records identical (modulo the pad option)
@@ -45,6 +46,11 @@ def generate(rng, tier, cls):
     n = 60 if tier == 'quick' else 200
     cfgs = []
 
+    try:
+        nsec = max(1, len(R.ref_parse(data)))
+    except R.RefReject:
+        nsec = 1
+
     for _ in range(n):
         pad = rng.randint(0, 2 * B) if rng.chance(0.8) else \
             rng.choice([0, 1, B - 1, B, B + 1, 2 * B, 2048])
@@ -58,11 +64,13 @@ def generate(rng, tier, cls):
             bs = 10 ** 6
 
         kind = rng.weighted([(6, 'sim'), (1, 'bytesio'), (3, 'buffered')])
-        c = [pad, bs, kind]
-
-        if kind == 'buffered':
-            c.append(rng.choice([1, 2, 5, 64, 97, 8192]))
-
+        c = [pad, bs, kind,
+             rng.choice([1, 2, 5, 64, 97, 8192]) if kind == 'buffered'
+             else None,
+             # which header is padded: every read-ahead starts at the current
+             # stream position, so a header's alignment is its own length
+             # modulo the block size - pad any header, not only the first
+             rng.below(nsec) if rng.chance(0.7) else 0]
         cfgs.append(c)
 
     return {'actors': [prod], 'schedule': [], 'faults': [], 'configs': cfgs}
@@ -90,9 +98,16 @@ def sweep_scenarios(task):
     rng = Rng(task['seed'])
     prod, data = gen.gen_base_file(rng, max_changes=1, max_files=2)
 
+    try:
+        nsec = max(1, len(R.ref_parse(data)))
+    except R.RefReject:
+        nsec = 1
+
+    psec = task['index'] % nsec
+
     for pad in range(0, 2 * B + 1):
-        cfgs = [[pad, bs, 'sim'] for bs in list(range(1, 2 * B + 1)) +
-                [10 ** 6, 10 ** 6 + 1]]
+        cfgs = [[pad, bs, 'sim', None, psec]
+                for bs in list(range(1, 2 * B + 1)) + [10 ** 6, 10 ** 6 + 1]]
         yield {'actors': [prod], 'schedule': [], 'faults': [],
                'configs': cfgs, 'seed': task['seed'], 'run': pad}
 
@@ -138,7 +153,7 @@ def execute(scn, L):
         out.discarded = 'intact-not-wellformed:' + e.kind
         return out
 
-    if not ref or 'pad' in ref[0]['options']:
+    if not ref or any('pad' in r['options'] for r in ref):
         out.discarded = 'empty-or-padded'
         return out
 
@@ -155,7 +170,9 @@ def execute(scn, L):
     for cfg in scn.get('configs', ()):
         try:
             pad, bs, kind = int(cfg[0]), int(cfg[1]), str(cfg[2])
-            buf = int(cfg[3]) if len(cfg) > 3 else None
+            buf = int(cfg[3]) if len(cfg) > 3 and cfg[3] is not None \
+                else None
+            psec = int(cfg[4]) if len(cfg) > 4 else 0
         except (TypeError, ValueError, IndexError):
             continue
 
@@ -167,14 +184,16 @@ def execute(scn, L):
 
         if pad:
             data = apply_faults(wk, intact, [
-                {'kind': 'skew', 'section': 0, 'key': 'pad',
-                 'value': 'x' * pad}], actors[0]['file'])
+                {'kind': 'skew', 'section': psec if 0 <= psec < len(ref)
+                 else 0, 'key': 'pad', 'value': 'x' * pad}],
+                actors[0]['file'])
 
         recs, end, exc = read_all(wk, data, block_size=bs, stream=kind,
                                   buf=buf, actor='cfg')
         out.absorb(wk)
         out.evals += 1
-        info = {'pad': pad, 'block_size': bs, 'stream': kind, 'buf': buf}
+        info = {'pad': pad, 'block_size': bs, 'stream': kind, 'buf': buf,
+                'padded_section': psec}
 
         if end != 'eof':
             es = exc_summary(exc, L) if exc is not None else {'type': end}
@@ -204,7 +223,7 @@ def execute(scn, L):
             break
 
         if (bs != B or pad) and len(ref) >= 3:
-            seen.add((pad, bs, kind, buf))
+            seen.add((pad, bs, kind, buf, psec))
 
         if len(spans) > 1:
             shift = len(data) - len(intact)
